@@ -40,6 +40,7 @@ CASES = [
     ('free root + hinge child + slide child', [dict(parent=-1, joints=F), dict(parent=0, joints=H), dict(parent=0, joints=S)], 'fh'),
     ('chain hinge - slide - hinge (offset anchors)', [dict(parent=-1, joints=H), dict(parent=0, joints=S), dict(parent=1, joints=H)], 'h'),
     ('slide stacks: ss root, sss child', [dict(parent=-1, joints=('s', 's')), dict(parent=0, joints=('s', 's', 's'))], ''),
+    ('slide root listed before a free root with a hinge child', [dict(parent=-1, joints=S), dict(parent=-1, joints=F), dict(parent=1, joints=H)], 'fh'),
     ('planar robot: slide, slide, hinge root with hinge child', [dict(parent=-1, joints=('s', 's', 'h')), dict(parent=0, joints=H)], 'h1'),
 ]
 
